@@ -30,6 +30,8 @@ class PCounter(persistent.Persistent):
             PCounter.calls.append((dict(old), dict(committed), dict(new)))
             if PCounter.mode == 'raise':
                 raise ValueError('resolver failed')
+            if PCounter.mode == 'attrerror':
+                raise AttributeError('resolver touched a missing attribute')
             if PCounter.mode == 'conflict':
                 from ZODB.POSException import ConflictError
                 raise ConflictError('resolver says no')
